@@ -844,7 +844,11 @@ impl RecipeTime {
             RecipeTime::Composed {
                 prep_time,
                 cook_time,
-            } => prep_time.iter().chain(cook_time.iter()).sum(),
+            } => prep_time
+                .iter()
+                .chain(cook_time.iter())
+                // both can be up to u32::MAX minutes: do not overflow
+                .fold(0u32, |total, t| total.saturating_add(*t)),
         }
     }
 }
